@@ -142,6 +142,14 @@ func (s *Server) SetZones(z []Zone) {
 	s.mu.Unlock()
 }
 
+// AddZone appends a zone to the store (a zone that becomes visible to the
+// token after the client has already talked to the API).
+func (s *Server) AddZone(z Zone) {
+	s.mu.Lock()
+	s.zones = append(s.zones, cloneZones([]Zone{z})...)
+	s.mu.Unlock()
+}
+
 // Snapshot returns a deep copy of the store.
 func (s *Server) Snapshot() []Zone {
 	s.mu.Lock()
